@@ -3,6 +3,7 @@ package main
 import (
 	"fmt"
 	"strconv"
+	"strings"
 
 	"github.com/jrhy/mast"
 )
@@ -146,8 +147,23 @@ func (c Cfg) Val(n uint64) interface{} {
 	case "iface":
 		// as encoding/json decodes it: an interface holding a slice (uncomparable with ==)
 		return IV{X: []interface{}{strconv.FormatUint(n, 10)}}
+	case "long":
+		return LV(longText(n))
 	}
 	panic("bad val kind")
+}
+
+// LV is a long string value: "<digits>-" followed by filler; its marshaled length (with the two
+// quotes) is 127, 128, 129, 16383, 16384 or 16385 bytes depending on n%6: the boundaries at which
+// a body length needs one, two and three varint bytes.
+type LV string
+
+var longTotals = []int{127, 128, 129, 16383, 16384, 16385}
+
+func longText(n uint64) string {
+	head := strconv.FormatUint(n, 10) + "-"
+	total := longTotals[n%6] - 2
+	return head + strings.Repeat(string(rune('a'+n%26)), total-len(head))
 }
 
 // IV is a value type with an interface-typed field.
@@ -171,6 +187,15 @@ func (c Cfg) ValNat(v interface{}) uint64 {
 		return n
 	case *uint64:
 		return *x
+	case LV:
+		n, err := strconv.ParseUint(string(x)[:strings.IndexByte(string(x), '-')], 10, 64)
+		if err != nil {
+			panic(err)
+		}
+		if string(x) != longText(n) {
+			panic("long value corrupted: " + string(x)[:20])
+		}
+		return n
 	case IV:
 		n, err := strconv.ParseUint(x.X.([]interface{})[0].(string), 10, 64)
 		if err != nil {
@@ -193,6 +218,8 @@ func (c Cfg) ValuesLike() interface{} {
 		return (*uint64)(nil)
 	case "iface":
 		return IV{}
+	case "long":
+		return LV("")
 	}
 	panic("bad val kind")
 }
